@@ -334,7 +334,7 @@ def _op(m):
 class C10(Property):
     id = "C10"
     title = "Mapping elements hold exactly the schema's fields, always as elements"
-    proof_module = "Proofs.C10Keys"
+    proof_module = "Proofs.C10All"
     theorems = [
         "Flatland.C10.Proofs.mapinv_init",
         "Flatland.C10.Proofs.mapinv_step",
@@ -353,6 +353,33 @@ class C10(Property):
         "Flatland.C10.Proofs.set_undeclared_ignored",
         "Flatland.C10.Proofs.C10_full_fails",
         "Flatland.C10.Proofs.required_survives_optional_member",
+        # distinct keys (for every argument, no ArgExact)
+        "Flatland.C10.Proofs.nodup_init",
+        "Flatland.C10.Proofs.nodup_step",
+        "Flatland.C10.Proofs.nodup_run",
+        "Flatland.C10.Proofs.sparse_keys_nodup",
+        "Flatland.C10.Proofs.dict_keys_nodup",
+        "Flatland.C10.Proofs.kok_root_clause",
+        # Compound as a mapping
+        "Flatland.C10.Proofs.prepare_length",
+        "Flatland.C10.Proofs.prepare_prefix",
+        "Flatland.C10.Proofs.prepare_keys",
+        "Flatland.C10.Proofs.compound_set_keeps_members",
+        "Flatland.C10.Proofs.compound_inv_step",
+        "Flatland.C10.Proofs.compound_inv_run",
+        "Flatland.C10.Proofs.compound_keys_exact",
+        "Flatland.C10.Proofs.compound_keys_nodup",
+        "Flatland.C10.Proofs.compound_undeclared_rejected",
+        # the flat route (over Flatland/Flat.lean)
+        "Flatland.C10.Flat.shape_setFlat",
+        "Flatland.C10.Flat.setFlat_inv",
+        "Flatland.C10.Flat.setFlat_inv_compound",
+        "Flatland.C10.Flat.blank_inv",
+        "Flatland.C10.Flat.fromFlat_inv",
+        "Flatland.C10.Flat.fromFlat_keys_declared",
+        "Flatland.C10.Flat.fromFlat_keys_nodup",
+        "Flatland.C10.Flat.fromFlat_required_present",
+        "Flatland.C10.Flat.fromFlat_keys_exact",
     ]
     level_text = "proof (partial)"
     level_note = ("THEOREM (partial): mapinv_init/mapinv_step/mapinv_run — the mapping invariant holds initially and is "
@@ -373,8 +400,24 @@ class C10(Property):
                   "policy: KeyError after _reset()), set_undeclared_ignored (duck/None: same call without the undeclared "
                   "pairs). On model paths answering `unsupported` (Element handed to a dense Dict whose child is a "
                   "container, non-empty list handed to Dict.set ...) the step theorem is vacuous: the node is unchanged. "
-                  "Not proved: pairwise distinct keys of a SparseDict (dict semantics in Python, a list in the model). "
-                  "ORACLE ONLY: Compound (DateYYYYMMDD) roots; set_flat/from_flat; the `unsupported` paths. "
+                  "DISTINCT KEYS (h6): nodup_init/nodup_step/nodup_run, sparse_keys_nodup, dict_keys_nodup — the model keeps "
+                  "the underlying dict as a LIST of children; no call (item assignment of ANY Element, update in every form, "
+                  "|=, set under every policy, setdefault, set_default, clear, del, pop) ever leaves two members under one "
+                  "key; no ArgExact needed; kok_root_clause: the mapping clause of C08's `kok` at the root of every "
+                  "reachable state. COMPOUND (h6): a Compound is a Mapping that overrides only set(); model = dense dict "
+                  "node + prepare (lazy __compound_init__ of DateYYYYMMDD: a supplied list of <= 3 fields completed by "
+                  "generated year/month/day: prepare_length/_prefix/_keys) + compoundSet (explode as a PARAMETER under the "
+                  "documented contract; dateExplode = DateYYYYMMDD.explode) + compoundStep; compound_inv_step/_run, "
+                  "compound_keys_exact(_nodup) (keys exactly the prepared field names after every history), "
+                  "compound_set_keeps_members (set(value) keeps every member's identity/class/key/parent, for EVERY "
+                  "explode), compound_undeclared_rejected. FLAT ROUTE (h6, over Flatland/Flat.lean): setFlat_inv / "
+                  "setFlat_inv_compound — set_flat with ANY pair list from ANY state satisfying the invariant keeps it "
+                  "(keys declared, pairwise distinct, = declared for Dict/Compound, required present for 'required' "
+                  "SparseDict, every member of the shape its field class builds); blank_inv; fromFlat_inv and its clauses "
+                  "fromFlat_keys_declared/_nodup/_required_present/_keys_exact. The flat invariant is per mapping "
+                  "(shallow): it applies to every nested _set_flat call, a deep well-formedness predicate is not stated. "
+                  "ORACLE ONLY: Compound roots reached through set_flat inside a g1 history; the `unsupported` paths; "
+                  "Compound members of Dicts in the tree model (generated only in the flat stream). "
                   "Declarative Schema roots are modelled as Dict and compared")
     technique = "invariant proof over operation histories (Lean 4) + differential testing against the implementation"
     trusted_base = [
@@ -382,8 +425,12 @@ class C10(Property):
         "`isinstance(value, field_schema)` modelled as class identity or derivation (cid / isa)",
     ]
     assumptions = [
-        "Compound (DateYYYYMMDD) roots and the flat routes are generated and checked by the Python oracle only; "
-        "Compound's compose/explode logic belongs to C18",
+        "Compound: explode() implementations follow the documented contract (assign values to declared children through "
+        "self[name].set(v), or raise before touching anything); compose/explode VALUES belong to C18 — only "
+        "DateYYYYMMDD.explode on None/int/str/containers is modelled (dateExplode, ASCII digits)",
+        "Compound field names are distinct: NOT enforced by the code for a user-supplied field_schema (a supplied first "
+        "field named 'month' collides with the generated one) — hypothesis of compound_keys_exact, see c10_findings.json",
+        "flat stream: the flat model's text normalisation (Env.norm) is irrelevant to key skeletons and set to identity",
         "the model follows containers.py as it is: SparseDict.__delitem__/pop consult the field schema's optional "
         "(the member's only for an undeclared key), `.name` is the instance's",
         "field names are non-empty and distinct (Dict.of enforces distinctness)",
@@ -399,7 +446,7 @@ class C10(Property):
             "set/set_default/from_defaults/from_flat/set_flat. Cases the Lean model does not cover (flat routes, "
             "Compound, model paths answering unsupported) are marked oracle-only BEFORE the run and are not counted as "
             "validated traces (tag model=oracle-only). non-trivial = at least 3 calls changed the mapping or raised")
-    quick_n = 40000
+    quick_n = 32000
     thorough_n = 300000
 
     # cases are tiny (< 10 ms); the alarm only guards against a genuine hang (e.g. a cycle of parent pointers).
